@@ -100,6 +100,13 @@ class FuncScan(ast.NodeVisitor):
             self.params.add(fn.args.kwarg.arg)
         self.module_names = module_names
         self.origin = {p: "param" for p in self.params}
+        # parameters with a numeric default (e.g. `i=0`) are numbers: augmented assignment rebinds them
+        pos = fn.args.args
+        for a, d in zip(pos[len(pos) - len(fn.args.defaults):], fn.args.defaults):
+            if isinstance(d, ast.Constant) and isinstance(d.value, (int, float)) and not isinstance(d.value, bool):
+                self.origin[a.arg] = "number"
+        self.calls = []        # (callee simple name, [origin of each positional arg])
+        self.depth = 0
         self.effects = []      # (kind, target_src, origin, lineno)
         self.attr_writes = []  # (attr, lineno)
 
@@ -116,6 +123,12 @@ class FuncScan(ast.NodeVisitor):
             f = ast.unparse(e.func)
             if f in FRESH_CALLS or f.endswith(".copy") or f.endswith(".tolist") or f.endswith(".astype") or f.endswith(".flatten"):
                 return "fresh"
+            # the result of an unknown call may alias its arguments (e.g. an identity helper such as
+            # `_kwargs_init(kwargs)`): be conservative
+            arg_orgs = [self.origin_of_expr(a) for a in e.args] + [self.origin_of_expr(k.value) for k in e.keywords]
+            if any(o in ("param", "self", "global", "maybe_param") for o in arg_orgs) and not f.endswith(".get"):
+                if any(o in ("param", "maybe_param") for o in arg_orgs):
+                    return "maybe_param"
             return "call"
         if isinstance(e, ast.IfExp):
             a, b = self.origin_of_expr(e.body), self.origin_of_expr(e.orelse)
@@ -131,6 +144,9 @@ class FuncScan(ast.NodeVisitor):
 
     def bind(self, target, origin):
         if isinstance(target, ast.Name):
+            if self.depth > 0 and target.id in self.origin:
+                # assignment inside a conditional / loop body: the previous binding may survive
+                origin = worst(self.origin[target.id], origin)
             self.origin[target.id] = origin
         elif isinstance(target, (ast.Tuple, ast.List)):
             for t in target.elts:
@@ -190,6 +206,23 @@ class FuncScan(ast.NodeVisitor):
         self.bind(node.target, org)
         self.generic_visit(node)
 
+    def visit_If(self, node):
+        self.visit(node.test)
+        self.depth += 1
+        for st in node.body + node.orelse:
+            self.visit(st)
+        self.depth -= 1
+
+    def visit_While(self, node):
+        self.depth += 1
+        self.generic_visit(node)
+        self.depth -= 1
+
+    def visit_Try(self, node):
+        self.depth += 1
+        self.generic_visit(node)
+        self.depth -= 1
+
     def visit_With(self, node):
         for it in node.items:
             if it.optional_vars is not None:
@@ -203,6 +236,9 @@ class FuncScan(ast.NodeVisitor):
             if not (isinstance(f.value, ast.Name) and f.value.id in ("np", "numpy", "os", "plt", "math")):
                 self.record("call." + f.attr, f.value, node.lineno)
         fs = ast.unparse(f)
+        simple = f.attr if isinstance(f, ast.Attribute) else (f.id if isinstance(f, ast.Name) else None)
+        if simple is not None:
+            self.calls.append((simple, [self.origin_of_expr(a) for a in node.args]))
         if fs in ("np.fill_diagonal", "numpy.fill_diagonal", "np.put", "np.place", "np.copyto", "random.shuffle", "np.random.shuffle") and node.args:
             self.record("call." + fs.split(".")[-1], node.args[0], node.lineno)
         if fs == "setattr" and node.args and isinstance(node.args[0], ast.Name) and node.args[0].id == "self":
@@ -214,7 +250,7 @@ class FuncScan(ast.NodeVisitor):
         # nested functions are scanned separately
 
 
-ORDER = ["number", "fresh", "call", "unknown", "global", "self", "param"]
+ORDER = ["number", "fresh", "call", "unknown", "global", "self", "maybe_param", "param"]
 
 
 def worst(*os_):
@@ -233,39 +269,71 @@ def scan_file(repo, rel):
         elif isinstance(n, (ast.Import, ast.ImportFrom)):
             for a in n.names:
                 module_names.add((a.asname or a.name).split(".")[0])
-    out_eff, out_attr = [], []
+    out_eff, out_attr, out_calls, mutators = [], [], [], []
 
-    def do(fn, owner):
+    def init_only(cls, name):
+        """is method `name` of class node `cls` called (as self.name(...)) only from __init__ ?"""
+        callers = set()
+        for m in cls.body:
+            if isinstance(m, ast.FunctionDef):
+                for c in ast.walk(m):
+                    if (isinstance(c, ast.Call) and isinstance(c.func, ast.Attribute) and c.func.attr == name
+                            and isinstance(c.func.value, ast.Name) and c.func.value.id == "self"):
+                        callers.add(m.name)
+        return callers == {"__init__"} and name.startswith("_")
+
+    def do(fn, owner, cls):
         if fn.name == "__init__":
             return
         sc = FuncScan(fn, module_names)
         sc.visit(fn)
+        only_init = cls is not None and init_only(cls, fn.name)
+        plist = [a.arg for a in fn.args.args if a.arg != "self"]
         for kind, tgt, org, ln in sc.effects:
+            if org == "self" and only_init:
+                org = "self_init"
             out_eff.append((rel, owner, fn.name, kind, tgt, org))
+            if org == "param":
+                r = root_of(ast.parse(tgt, mode="eval").body)
+                if r and r[0] == "name" and r[1] in plist:
+                    mutators.append((fn.name, plist.index(r[1])))
         for attr, ln in sc.attr_writes:
-            out_attr.append((rel, owner, fn.name, attr))
+            out_attr.append((rel, owner, fn.name + ("[init-only]" if only_init else ""), attr))
+        for callee, orgs in sc.calls:
+            out_calls.append((rel, owner, fn.name, callee, orgs))
         for sub in ast.walk(fn):
             if isinstance(sub, ast.FunctionDef) and sub is not fn:
-                do(sub, owner)
+                do(sub, owner, cls)
 
     for n in tree.body:
         if isinstance(n, ast.ClassDef):
             for m in n.body:
                 if isinstance(m, ast.FunctionDef):
-                    do(m, n.name)
+                    do(m, n.name, n)
         elif isinstance(n, ast.FunctionDef):
-            do(n, "")
-    return out_eff, out_attr
+            do(n, "", None)
+    return out_eff, out_attr, out_calls, mutators
 
 
 def emit(repo):
-    effs, attrs = [], []
+    effs, attrs, calls, mutators = [], [], [], []
     for rel in FILES:
         if not os.path.exists(os.path.join(repo, "hierarc", rel)):
             continue
-        e, a = scan_file(repo, rel)
+        e, a, c, m = scan_file(repo, rel)
         effs += e
         attrs += a
+        calls += c
+        mutators += m
+    mut = {}
+    for name, idx in mutators:
+        mut.setdefault(name, set()).add(idx)
+    mcalls = []
+    for rel, owner, fn, callee, orgs in calls:
+        if callee in mut:
+            for idx in sorted(mut[callee]):
+                org = orgs[idx] if idx < len(orgs) else "unknown"
+                mcalls.append((rel, owner, fn, callee, org))
     out = ["-- GENERATED by translator/effects.py — do not edit", "namespace HierArc.Gen", "",
            "/-- in-place operations outside `__init__`: (file, class, function, kind, target, origin) -/",
            "structure Effect where",
@@ -280,7 +348,14 @@ def emit(repo):
     out.append(",\n".join("  (%s, %s, %s, %s)" % tuple(lstr(x) for x in a) for a in attrs))
     out.append("]")
     out.append("")
+    out.append("/-- functions that modify one of their parameters in place: (name, parameter position) -/")
+    out.append("def paramMutators : List (String × Nat) := [%s]" % ", ".join("(%s, %d)" % (lstr(n), i) for n in sorted(mut) for i in sorted(mut[n])))
+    out.append("/-- calls of such functions: (file, class, calling function, callee, origin of the modified argument) -/")
+    out.append("def mutatingCalls : List (String × String × String × String × String) := [")
+    out.append(",\n".join("  (%s, %s, %s, %s, %s)" % tuple(lstr(x) for x in c) for c in mcalls))
+    out.append("]")
+    out.append("")
     out.append("end HierArc.Gen")
-    info = {"effects": len(effs), "attr_writes": len(attrs),
+    info = {"effects": len(effs), "attr_writes": len(attrs), "mutating_calls": len(mcalls),
             "by_origin": {o: sum(1 for e in effs if e[5] == o) for o in sorted(set(e[5] for e in effs))}}
     return "\n".join(out) + "\n", info
